@@ -147,6 +147,14 @@ def run(ctx, rep):
                         if d == '?':
                             ok = None
                     n_probes += sum(1 for d, _ in dirs if d in 'BF')
+                    reached_loop = any(x and x[0] == 'iterhas' for c_ in st.asm for x in subterms(c_))
+                    if not dirs and not reached_loop:
+                        # Fajr and Isha are both missing in this run, so the policy applies: an outcome without a single probe is a search
+                        # that was not attempted (a shortcut on the latitude, on the method, ...)
+                        rep.ob('R9.2', f'{pol}:search-attempted', False,
+                               'an outcome of the policy with Fajr and Isha missing returns before the search loop is reached' +
+                               (f' when {[(show(c_, maxd=3)[:60], v_) for c_, v_ in list(st.asm.items())[-2:]]}' if st.asm else '') +
+                               ': the missing times stay missing although a good day may be near')
                     if dirs:
                         rep.ob('R9.2', f'{pol}:earlier-date-first', ok,
                                'at every distance the earlier date is probed before the later one' if ok else
